@@ -31,9 +31,11 @@ ASSUMPTIONS = [
     "there): only 'no unlock, no serving' is required of it",
 ]
 FLOORS = {"quick": {"evaluations": 5000, "served": 300, "unlock_sent": 500, "refused": 3000,
-                    "live_runs": 20, "version_grid_cells": 300},
-          "thorough": {"evaluations": 200000, "served": 5000, "unlock_sent": 20000,
-                       "refused": 100000, "live_runs": 100, "version_grid_cells": 300}}
+                    "live_runs": 20, "version_grid_cells": 300,
+                    "supports_contract_evaluations": 20000},
+          "thorough": {"evaluations": 300000, "served": 30000, "unlock_sent": 30000,
+                       "refused": 200000, "live_runs": 60, "version_grid_cells": 300,
+                       "supports_contract_evaluations": 500000}}
 EXHAUSTIVE = {"quick": False, "thorough": True}
 
 MGR = (5, 4, 1)
@@ -104,8 +106,9 @@ def configs(spec):
             i += 1
             if i % n == sh:
                 yield dict(good, platform=plat, mode="signer", signer=v, grid=True)
-    if spec["tier"] == "quick":
-        for _ in range(6500 // n):
+    nrand = 6500 // n if spec["tier"] == "quick" else 400000 // n
+    if True:
+        for _ in range(nrand):
             def ver():
                 if rng.random() < 0.55:
                     return rng.choice([(5, 4, 1), (5, 4, 0), (5, 3, 7), (5, 0, 0)])
@@ -118,7 +121,8 @@ def configs(spec):
                    "retries": rng.choice(RETRIES + [2, 3, 3, rng.randrange(256)]),
                    "echo": rng.random() < 0.85, "unlock": rng.random() < 0.8,
                    "change": rng.random() < 0.2, "post": rng.choice(POST + ["signer"] * 6)}
-        return
+        if spec["tier"] == "quick":
+            return
     prod = itertools.product(PLATFORMS, MODES, ONB, VERS_SMALL, VERS_SMALL, RETRIES,
                              (True, False), (True, False), (True, False), POST)
     for j, (pl, mo, ob, ui, sg, rt, ec, ul, ch, po) in enumerate(prod):
@@ -306,8 +310,47 @@ def run_live(s):
     return served, res.get("exc")
 
 
+def install_supports_contract(acc):
+    """post-condition on the real HSM2FirmwareVersion.supports (icontract when
+    installed, plain wrapper otherwise): same major and (minor, patch) of the running
+    version not newer than this one's.  Every evaluation is counted."""
+    from ledger.version import HSM2FirmwareVersion as V
+    if getattr(V.supports, "_pv_wrapped", False):
+        return
+    orig = V.supports
+
+    def relation(self, running_version, result):
+        want = (self.major == running_version.major and
+                (running_version.minor, running_version.patch) <= (self.minor, self.patch))
+        acc.count("supports_contract_evaluations")
+        if bool(result) != want:
+            acc.violation("version-relation-wrong", {
+                "manager": (self.major, self.minor, self.patch),
+                "device": (running_version.major, running_version.minor,
+                           running_version.patch), "got": bool(result)},
+                {"config": None, "kind": "supports"})
+        return True
+    try:
+        import icontract
+        wrapped = icontract.ensure(relation, error=AssertionError)(orig)
+        acc.count("icontract_postcondition_used")
+    except ImportError:
+        def wrapped(self, running_version):
+            r = orig(self, running_version)
+            relation(self, running_version, r)
+            return r
+    wrapped._pv_wrapped = True
+    V.supports = wrapped
+    V.__ge__ = lambda self, other: V.supports(self, other)
+    # the relation over the whole grid, both arguments varying
+    for a in VERSION_GRID[::3]:
+        for b in VERSION_GRID:
+            V(*a).supports(V(*b))
+
+
 def run_shard(spec, acc):
     env.setup()
+    install_supports_contract(acc)
     tmpdir = tempfile.mkdtemp(prefix="pv-c09-")
     try:
         k = 0
@@ -330,7 +373,10 @@ def replay(case, acc):
     env.setup()
     tmpdir = tempfile.mkdtemp(prefix="pv-c09-")
     try:
+        install_supports_contract(acc)
         c = case["config"]
+        if c is None:
+            return
         c["ui"] = tuple(c["ui"])
         c["signer"] = tuple(c["signer"])
         run_config(acc, c, tmpdir, live=case.get("live", False))
